@@ -80,9 +80,9 @@ CHECKS = {
    text="For each generated scenario (operation x prior history) EVERY point between two file-system effects of the operation is exercised - the process is killed at the entry of each mutating system call in turn - and the directory is then re-opened and checked. Exhaustive per scenario over crash points under exactly the property's crash model; scenarios are sampled.",
    note='Process-stop model only (completed system calls persist). Relies on strace 6.1 injection semantics; each injected run is re-traced and must have died at the intended call, otherwise the point is skipped and counted.'),
  "C20": dict(level="exploration", design="3/C20",
-   technique='property-based testing of event scripts: calls / gate releases / yields on a current-thread runtime with a paused virtual clock and a generated plan of yields at guarded points inside Group::work (deterministic, hangs detected by a virtual 1-hour timeout), and the same scripts on 2-4 worker multi-thread runtimes; oracle = invariants over the logged call intervals, task starts and task execution intervals (no two executions for one key overlap)',
+   technique='property-based testing of event scripts: calls / gate releases / yields on a current-thread runtime with a paused virtual clock and a generated plan of yields at guarded points inside Group::work (deterministic, hangs detected by a virtual 1-hour timeout), and the same scripts on 2-4 worker multi-thread runtimes (liveness there by relative progress, no time threshold); oracle = invariants over the logged call intervals, task starts and task execution intervals (no two executions for one key overlap)',
    text="Each script's event log is checked: one task start per owning call, owners get their own outcome, every waiter's result is the outcome of an overlapping owner of the same key (value, error payload or panic notification), executions of two tasks of one key never overlap, nobody hangs. Exploration over scripts and yield plans; liveness is decided on the virtual clock.",
-   note='Callers are not cancelled. Mode B samples OS schedules; a hang there is reported as inconclusive (exit 2).'),
+   note='Callers are not cancelled. Mode B samples OS schedules; there a caller counts as waiting forever only by relative progress (all gates released, all started tasks finished, several rounds of fresh tasks and flights completed by the same runtime meanwhile), which assumes tokio polls a woken task before an unbounded number of later-spawned ones; a plain time limit is inconclusive (exit 2).'),
 }
 
 ALL = ["C%02d" % i for i in range(1, 21)]
